@@ -37,6 +37,15 @@ pub unsafe extern "C" fn fsync(fd: c_int) -> c_int {
 
 #[no_mangle]
 pub unsafe extern "C" fn msync(addr: *mut c_void, len: size_t, flags: c_int) -> c_int {
+	if pdbv::iotrack::THREADED.load(Ordering::SeqCst) {
+		// real worker threads: what the call guarantees is the content at call time
+		pdbv::iotrack::on_msync(addr as usize, len);
+		let d = pdbv::iotrack::MSYNC_DELAY_US.load(Ordering::SeqCst);
+		if d > 0 {
+			std::thread::sleep(std::time::Duration::from_micros(d));
+		}
+		return real!("msync", unsafe extern "C" fn(*mut c_void, size_t, c_int) -> c_int)(addr, len, flags)
+	}
 	let r = real!("msync", unsafe extern "C" fn(*mut c_void, size_t, c_int) -> c_int)(addr, len, flags);
 	if r == 0 {
 		pdbv::iotrack::on_msync(addr as usize, len);
